@@ -89,8 +89,23 @@ type scanObs struct {
 func observe(ctx *h.ScanCtx, g *h.GroupView) scanObs {
 	o := scanObs{failedNodes: map[string]bool{}}
 	o.writes = ctx.WritesFor(g)
+	// a node that escalator itself removed earlier in this scan is not "failed": the NotFound that
+	// follows is the consequence of its own choice to remove the node instead of reusing it
+	removedHere := map[string]bool{}
+	byInstance := map[string]string{}
+	for _, n := range g.Nodes {
+		byInstance[sim.InstanceIDOf(n.Spec.ProviderID)] = n.Name
+	}
 	for _, e := range ctx.Entries {
-		if (e.Op == sim.OpK8sGet || e.Op == sim.OpK8sUpdate) && e.Err != "" {
+		if e.Err == "" && e.Op == sim.OpK8sDelete {
+			removedHere[e.Target] = true
+		}
+		if e.Err == "" && e.Op == sim.OpTerminate {
+			if n, ok := byInstance[e.Target]; ok {
+				removedHere[n] = true
+			}
+		}
+		if (e.Op == sim.OpK8sGet || e.Op == sim.OpK8sUpdate) && e.Err != "" && !removedHere[e.Target] {
 			if gg, _ := ctx.GroupOfNode(e.Target); gg == g {
 				o.failedNodes[e.Target] = true
 			}
